@@ -509,6 +509,10 @@ Ascii(s) == \* TLA+ string literal -> code points, for the few names the spec ne
     [] s = "b" -> << 98 >>
     [] s = "c" -> << 99 >>
     [] s = "x" -> << 120 >>
+    [] s = "foobar" -> << 102, 111, 111, 98, 97, 114 >>
+    [] s = "foo" -> << 102, 111, 111 >>
+    [] s = "bar" -> << 98, 97, 114 >>
+    [] s = "ob" -> << 111, 98 >>
     [] s = "p" -> << 112 >>
     [] s = "q" -> << 113 >>
     [] s = "k" -> << 107 >>
